@@ -151,8 +151,7 @@ def main():
         "not_applicable": na,
         "notes": "All checks: ./check <ID> --tier quick|thorough [--replay FILE]; exit 0 held / 1 VIOLATION / 2 harness error. Known findings: /verif/known_findings.json.",
     }
-    if not na:
-        del man["not_applicable"]
+    # an explicit (possibly empty) list: all 20 properties are decided with the technique, none is declared out of its reach
     path = os.path.join(ROOT, "MANIFEST.json")
     with open(path, "w") as f:
         json.dump(man, f, indent=1)
